@@ -400,21 +400,28 @@ func worldPlugins(w *World) {
 				viol("consult", "unsubscribed-plugin-consulted-CloseProxy", "plugin %s is not subscribed to CloseProxy but was notified", p.name)
 			}
 		}
-		// session end notifies too
-		if rr, got := c.register(M{"proxy_name": "pp2", "proxy_type": "tcp", "remote_port": 20009}); got && mstr(rr, "error") == "" {
+		// session end notifies too: once for every proxy that stops, each under its own name
+		var ended []string
+		for i, n := range []string{"pp2", "pp3", "pp4"}[:w.KnobPick("session_end_proxies", 1, 2, 3)] {
+			if rr, got := c.register(M{"proxy_name": n, "proxy_type": "tcp", "remote_port": 20009 - i}); got && mstr(rr, "error") == "" {
+				ended = append(ended, n)
+			}
+		}
+		if len(ended) > 0 {
 			snap()
 			c.Drop()
 			time.Sleep(3 * time.Second)
 			for _, p := range plugins {
 				if p.ops["CloseProxy"] && p.outcome["CloseProxy"] != poUnreachable {
-					got := false
+					seen := map[string]int{}
 					for _, cl := range p.callsFor("CloseProxy")[marks[p.name+"/CloseProxy"]:] {
-						if cl.Content["proxy_name"] == "pp2" {
-							got = true
-						}
+						n, _ := cl.Content["proxy_name"].(string)
+						seen[n]++
 					}
-					if !got {
-						viol("notify", "close-not-notified-session-end", "session ended: plugin %s got no CloseProxy notification for proxy pp2", p.name)
+					for _, n := range ended {
+						if seen[n] == 0 {
+							viol("notify", "close-not-notified-session-end", "session with proxies %v ended: plugin %s got no CloseProxy notification for proxy %s (it saw %v)", ended, p.name, n, seen)
+						}
 					}
 				}
 			}
